@@ -82,9 +82,13 @@ def generate(rng, tier):
         c = build(m2)
         if c is not None:
             yield c
+    # the length-limited readers (LimitedReader / read_limited) against the slice cut at the limit
+    yield from D.readlim_cases(rng, 1500 if tier == "quick" else 40000)
 
 
 def is_trivial(c):
+    if "readlim" in c.meta:
+        return c.meta.get("len", 0) < 8
     return not any(("ok(" in (o or "")) for o in c.impl)
 
 
@@ -161,6 +165,9 @@ def tail(s):
 
 def oracle(c):
     out = []
+    if "readlim" in c.meta:
+        D.readlim_oracle(c, out)
+        return out
     im = c.impl
     k = c.meta.get("k3")
     if k == "ip":
@@ -224,7 +231,14 @@ def check_reader(op, s, r, out):
         cs, cr = err_class(s), err_class(r)
         if cs == "len":
             # the slice does not hold the announced header: a reader may find a content fault in the
-            # bytes it could read before running out of data
+            # bytes it could read before running out of data.  But where a length field (not the end of the
+            # slice) is what cut the header short, the reader runs into the same limit (LimitedReader) and
+            # has to report the same layer, offset, available length and length source
+            ms, mr = D._LENERR.search(s), D._LENERR.search(r)
+            if ms and mr and ms.group("src") != "Slice":
+                fs, fr = ms.groupdict(), mr.groupdict()
+                if any(fs[k] != fr[k] for k in ("len", "src", "layer", "off")) or not int(fr["len"]) < int(fr["req"]):
+                    out.append((op + "-length-error-differs", {"slice": s, "read": r}))
             return
         if cs != cr and not (cr.startswith("content") and cs.split("{")[0].split(":")[-1].strip() in cr):
             out.append((op + "-rejection-reason-differs", {"slice": s, "read": r}))
